@@ -64,6 +64,38 @@ SUBST_KINDS = {
 }
 
 
+# R19: f64 library methods a unit does not give a specification of its own get an uninterpreted total
+# specification (result == an uninterpreted function of the arguments), spliced after float_axioms.inc, so
+# that a tree that starts to call one of them stays inside the verified subset and the unit's own
+# postconditions decide whether the new call changes the result.  Nothing is assumed about the values.
+FLOAT_EXTRAS = [('clamp', 3), ('max', 2), ('exp', 1), ('ln', 1), ('sqrt', 1), ('powf', 2), ('sin', 1), ('cos', 1),
+                ('tan', 1), ('log2', 1), ('log10', 1), ('exp2', 1), ('copysign', 2), ('fract', 1), ('cbrt', 1),
+                ('hypot', 2), ('atan2', 2), ('atan', 1), ('tanh', 1), ('to_radians', 1), ('to_degrees', 1),
+                ('exp_m1', 1), ('ln_1p', 1)]
+
+
+def add_float_extras(lines):
+    last = -1
+    for k, (text, f, no) in enumerate(lines):
+        if f == 'float_axioms.inc':
+            last = k
+    if last < 0:
+        return lines
+    alltext = '\n'.join(t for t, _, _ in lines)
+    declared = set(re.findall(r'assume_specification\s*\[\s*f64::(\w+)\s*\]', alltext))
+    extra = []
+    for name, n in FLOAT_EXTRAS:
+        if name in declared:
+            continue
+        args = ['x', 'y', 'z'][:n]
+        sig = ', '.join('%s: f64' % a for a in args)
+        extra.append('pub uninterp spec fn fx_%s_spec(%s) -> f64;' % (name, sig))
+        extra.append('pub assume_specification [f64::%s](%s) -> (r: f64) ensures r == fx_%s_spec(%s);'
+                     % (name, sig, name, ', '.join(args)))
+    out = lines[:last + 1] + [(t, 'float_axioms.inc', 0) for t in extra] + lines[last + 1:]
+    return out
+
+
 class SpecError(Exception):
     pass
 
@@ -214,6 +246,7 @@ class Extractor:
     # ------------------------------------------------------------------
     def run(self):
         lines = self.read_spec_lines(self.unit_path)
+        lines = add_float_extras(lines)
         i = 0
         raw_buf = []
         while i < len(lines):
